@@ -346,6 +346,16 @@ impl Region {
         trace!("{}: '{}' remove acquiring regions_mut", db, id);
         let mut regions = db.regions_mut();
         trace!("{}: '{}' remove got locks", db, id);
+        // Refuse before touching the layout: a failed removal must leave no trace.
+        // Expected 3: one from caller, one from regions.index_to_region,
+        // one from layout.start_to_region (dropped by remove_region below).
+        let ref_count = Arc::strong_count(self.arc());
+        if ref_count > 3 {
+            return Err(Error::RegionStillReferenced {
+                id,
+                ref_count: ref_count - 1,
+            });
+        }
         layout.remove_region(&self)?;
         regions.remove(&self)?;
         Ok(())
